@@ -140,11 +140,12 @@ class InterfaceLDM4:
         )
 
         if data_consumer.application_id in self.ldm_service.get_data_consumer_its_aid():
-            self.ldm_service.del_data_consumer_its_aid(
-                data_consumer.application_id)
-            return DeregisterDataConsumerResp(
-                data_consumer.application_id, DeregisterDataConsumerAck(0)
-            )
+            # Only the caller that actually removed the registration reports success
+            if self.ldm_service.del_data_consumer_its_aid(
+                    data_consumer.application_id) is not False:
+                return DeregisterDataConsumerResp(
+                    data_consumer.application_id, DeregisterDataConsumerAck(0)
+                )
         return DeregisterDataConsumerResp(
             data_consumer.application_id, DeregisterDataConsumerAck(1)
         )
